@@ -46,7 +46,7 @@ def run(ctx):
         props=[("Props.C01", ["c01_sound", "c01_sealed_refuses_everything", "c01_forwarding_headers_ignored", "c01_ip_certificate_needs_peer_inside", "c01_sufficient_iff", "c01_password_only_refused", "c01_password_session_401",
                               "c01_everything_else_refused", "c01_refused_is_error", "c01_complete_session",
                               "c01_complete_password", "c01_complete_cert",
-                              "c01_certificate_decides", "c01_credentials_beside_certificate_ignored",
+                              "c01_certificate_decides", "c01_credentials_beside_certificate_ignored", "c01_nameless_certificate_no_identity",
                               "c01_session_issuer_exact", "c01_foreign_session_refused",
                               "c01_entitled_decides", "c01_issued_entitled",
                               "c01_strict_refuted", "c01_old_refuted"])],
@@ -62,5 +62,5 @@ def run(ctx):
                  "the tables of credential shapes and combinations exist twice (Model/CertgenCases.v and harness/kmd/c01.go); a divergence shows up as a correspondence mismatch, never as silence",
                  "multipart, duration and key parsing run in front of the model (inputs q_form_ok, q_key; C03/C10 are about them)"],
         assumptions=["clock: cookies are minted relative to time.Now() at request time with margins of at least 30 s, the model evaluates them at now = 0",
-                     "client-certificate common names are non-empty (an empty CN falls through to the cookie branch in checkAuth; not modelled)"],
+                     "the automation-user test answers for the empty name what the configuration says (the harness lists \"\" as an automation user so that a nameless address-restricted certificate reaches the fall-through to the cookie code)"],
         timeout=2400)
